@@ -7638,16 +7638,17 @@ class TensorDictBase(MutableMapping):
 
     @property
     @cache  # noqa: B019
-    def sorted_keys(self) -> list[NestedKey]:
+    def sorted_keys(self) -> tuple[NestedKey, ...]:
         """Returns the keys sorted in alphabetical order.
 
         Does not support extra arguments.
 
         If the TensorDict is locked, the keys are cached until the tensordict
-        is unlocked for faster execution.
+        is unlocked for faster execution. The keys are returned as a tuple: the
+        cached value is shared between calls and must not be modified.
 
         """
-        return sorted(self.keys())
+        return tuple(sorted(self.keys()))
 
     @_as_context_manager()
     def flatten(self, start_dim=0, end_dim=-1):
